@@ -1128,9 +1128,11 @@ func (x *Exec) verifyContract(ct *Contract) (err error) {
 	x.curInputs = map[string]Value{}
 	var fn *ssa.Function
 	var args []Value
+	x.renamed = nil
 	if !ct.lemma {
 		fn = x.resolveFunc(ct)
 		ct.fn = fn
+		x.renamed = renamedLocals(x.recordedLocals[fn.String()], fn)
 		for _, p := range fn.Params {
 			v := x.symValue(st, p.Type(), p.Name())
 			for _, np := range ct.nilParams {
